@@ -138,10 +138,12 @@ CHECKS = {
         "SLAU144 (formats I/II, jumps, addressing modes, constant generators, 24 emulated instructions) and GenMsp430Enc "
         "enumerates 5,752 assembly-level instructions (every opcode x source mode x destination mode x byte/word, values at "
         "the constant-generator corners) at two addresses; the bytes the real assembler emits must be one of the manual's "
-        "encodings. The RV32I transcription is NOT built. arm is out of scope (codec_scope.json): 453 untriaged "
-        "disagreement classes on the unchanged tree.",
-   technique="TLA+ phase specification of the round trip + TLA+ transcription of the MSP430 encodings (SLAU144); corpus, "
-             "harvested forms and TLC-enumerated MSP430 instructions replayed through assembler and decoders; TLC trace "
+        "encodings. Rv32iEnc.tla transcribes the R/I/S/B/U/J formats and the 40 RV32I base instructions from the RISC-V "
+        "manual (words as 16-bit halves); GenRv32iEnc enumerates 7,317 instructions (registers x0/x1/x15/x16/x31, immediates "
+        "at the ends of each field) and the assembled word must be the manual's. Operands that do not fit a field are left "
+        "to C06. arm is out of scope (codec_scope.json): 453 untriaged disagreement classes on the unchanged tree.",
+   technique="TLA+ phase specification of the round trip + TLA+ transcriptions of the MSP430 (SLAU144) and RV32I encodings; corpus, "
+             "harvested forms and TLC-enumerated MSP430/RV32I instructions replayed through assembler and decoders; TLC trace "
              "acceptors (tiling, re-encode, architecture encoding)"),
  "C06": dict(
    category="model_checking",
